@@ -394,6 +394,8 @@ pub trait Caps: H {
 #[derive(Clone, Debug)]
 pub enum Op {
     Push(usize, u32, U),
+    /// a push that may be refused (panic): the history goes on with whatever state the region is left in
+    TryPush(usize, u32, U),
     Probe(usize),
     ProbeOwned(usize),
     Read(usize),
@@ -452,6 +454,7 @@ pub fn parse_op(s: &str) -> Result<Op, String> {
     };
     Ok(match p.as_slice() {
         ["push", k, f, v] => Op::Push(n(k)?, u32::from_str_radix(f, 16).map_err(|e| e.to_string())?, U::parse(v)?),
+        ["trypush", k, f, v] => Op::TryPush(n(k)?, u32::from_str_radix(f, 16).map_err(|e| e.to_string())?, U::parse(v)?),
         ["probe", k] => Op::Probe(n(k)?),
         ["probeo", k] => Op::ProbeOwned(n(k)?),
         ["read", k] => Op::Read(n(k)?),
@@ -540,6 +543,23 @@ pub fn run_entry<R: Caps>(ops: &[Op]) -> Vec<Vec<Obs>> {
                             stop = true;
                             vec![Obs::Panic]
                         }
+                    }
+                }
+            },
+            Op::TryPush(k, f, u) => match R::of_u(u) {
+                None => {
+                    stop = true;
+                    vec![Obs::Ill]
+                }
+                Some(v) => {
+                    let s = &mut slots[*k];
+                    match caught(|| s.r.push_form(&v, *f)) {
+                        Some(i) => {
+                            s.log.push(i);
+                            vec![Obs::Idx(R::idx_u(i))]
+                        }
+                        // refused: carry on with the region as the refusal left it
+                        None => vec![Obs::Panic],
                     }
                 }
             },
